@@ -357,3 +357,19 @@ package sfnt
 //@     invariant forall i int :: 0 <= i && i < iter ==> f.Glyphs[i].Name == glyphNames[i]
 //@     invariant forall i int :: 0 <= i && i < len(f.Glyphs) ==> f.Glyphs[i] != nil
 //@     invariant forall i int :: forall j int :: 0 <= i && i < j && j < len(f.Glyphs) ==> f.Glyphs[i] != f.Glyphs[j]
+
+// Layouter.Layout: one glyph per character through the cmap subtable, GSUB,
+// advance widths of the non-mark glyphs, GPOS.  Checked: never panics - in
+// particular for glyph IDs beyond the font's last glyph, which neither the
+// cmap subtable nor the GSUB substitutes are validated against (defect F36
+// found here) - and the context stacks are empty afterwards.
+//@ func (l *Layouter) Layout(s string) (res []glyph.Info)   props: C15 C07
+//@   requires l != nil && fontOK(l.font) && l.cmap != nil
+//@   requires l.gsub != nil ==> gtab.llOK(l.gsub) && len(l.gsub.stack) == 0
+//@   requires l.gpos != nil ==> gtab.llOK(l.gpos) && len(l.gpos.stack) == 0
+//@   requires l.gsub != l.gpos || l.gsub == nil
+//@   opt assume_make=1
+//@   loop 0
+//@     invariant isnil(seq) || ref(seq) == ref(l.buf) || fresh(seq)
+//@   loop 1
+//@     invariant fontOK(font) && font == l.font && (l.gpos != nil ==> gtab.llOK(l.gpos) && len(l.gpos.stack) == 0)
